@@ -64,10 +64,12 @@ func (c *candidate) startElection() {
 				println(c, n, ">>", req)
 			}
 			pool := c.getConnPool(n.ID)
+			verifSpawn(c.Raft, "vote")
 			go func(ch chan<- rpcResponse) {
 				resp := &voteResp{}
 				err := pool.doRPC(req, resp, deadline)
 				ch <- rpcResponse{resp, pool.nid, err}
+				verifDone(c.Raft, "vote")
 			}(c.respCh)
 		}
 	}
